@@ -17,7 +17,7 @@ import time
 import hashlib
 
 VERIF = os.path.dirname(os.path.dirname(os.path.abspath(__file__)))
-REPO = "/repo"
+REPO = os.environ.get("VERIF_REPO", "/repo")
 WORK = os.path.join(VERIF, "work")
 sys.path.insert(0, os.path.join(VERIF, "lib"))
 
@@ -157,9 +157,12 @@ def run_kani(crate, harnesses, cbmc_args=(), kani_args=(), jobs=None, harness_ti
                        for c in failed],
             "covers": [{"desc": c["description"], "status": c["status"]} for c in covers],
             "reached": sorted(reached),
-            "solver_s": stats.get(hid, {}).get("runtime_decision_procedure_s"),
-            "symex_s": stats.get(hid, {}).get("runtime_symex_s"),
-            "vccs": stats.get(hid, {}).get("vccs_generated"),
+            "repo_asserts": [{"fn": c.get("function") or "", "status": c["status"], "desc": c["description"].strip('"')}
+                             for c in checks if c["category"] == "assertion"
+                             and ((c.get("location") or {}).get("file") or "").startswith(REPO + "/")],
+            "solver_s": (stats.get(hid) or {}).get("runtime_decision_procedure_s"),
+            "symex_s": (stats.get(hid) or {}).get("runtime_symex_s"),
+            "vccs": (stats.get(hid) or {}).get("vccs_generated"),
             "error": errs.get(hid, {}),
         }
     try:
@@ -360,6 +363,26 @@ def check_kani_property(prop, spec, tier):
                "covers": r["covers"], "group": g["id"]}
         hrecords.append(rec)
         uncovered = [c for c in r["covers"] if c["status"] != "Satisfied"]
+        if h in spec.get("expect_panic", {}):
+            ep = spec["expect_panic"][h]
+            rec["role"] = "must panic at '%s' with nothing that writes reachable before it" % ep["fail_desc"]
+            real = [f for f in r["failed"] if f["cat"] not in INCONCLUSIVE_CATS]
+            only_expected = bool(real) and all(ep["fail_desc"] in f["desc"] for f in real)
+            early = [a for a in r["repo_asserts"] if a["status"] != "Unreachable" and any(p in a["fn"] for p in ep["unreachable_fn"])]
+            if cls == "fail" and only_expected and not early:
+                rec["verdict"] = "pass (panics at the range check only)"
+                nontrivial += 1
+                continue
+            if cls == "inconclusive":
+                inconclusive.append((h, "inconclusive: %s" % r["failed"][:3]))
+                continue
+            # otherwise fall through to replay with a synthetic failure description
+            if cls == "pass" or not real:
+                r["failed"] = [{"desc": "expected panic '%s' did not occur" % ep["fail_desc"], "cat": "assertion", "fn": h, "loc": ""}]
+            elif early:
+                r["failed"] = r["failed"] + [{"desc": "code that modifies the vector is reachable before the range check: %s" % early[0]["fn"],
+                                               "cat": "assertion", "fn": early[0]["fn"], "loc": ""}]
+            cls = "fail"
         if h in negatives:
             rec["role"] = "negative twin (must fail)"
             if cls == "pass":
